@@ -8,7 +8,7 @@ from concurrent.futures import ThreadPoolExecutor
 
 VERIF = os.path.dirname(os.path.dirname(os.path.dirname(os.path.abspath(__file__))))
 COQ = os.path.join(VERIF, "coq")
-WORK = os.path.join(COQ, "work")
+WORK = os.path.join(COQ, "work" + os.environ.get("VERIF_WORK_SUFFIX", ""))    # (parallel runs against scratch copies use their own)
 QFLAGS = ["-Q", os.path.join(COQ, "theories"), "Playback"]
 NCPU = os.cpu_count() or 4
 
